@@ -542,3 +542,46 @@ def repo_py_files(repo):
                 except OSError:
                     pass
     return sorted(res)
+
+# ------------------------------------------------------------------------------------------------
+# nested scopes for the compile pipeline (C11, C18): random nestings of def / class / lambda /
+# comprehension with names from a small pool bound, read, deleted, declared global or nonlocal at
+# every level.  The programs are meant to be COMPILED (many are not meant to run; some are rejected
+# with a SyntaxError, e.g. nonlocal without an enclosing binding).
+def nested_scope_programs(seed, n):
+    import random
+    rnd = random.Random(seed * 7919 + 13)
+    names = ["alpha", "beta", "gamma", "delta"]
+    def block(kind, depth, ind):
+        pad = "    " * ind; out = []
+        k = rnd.randint(1, 5)
+        for _ in range(k):
+            r = rnd.random(); x = rnd.choice(names); y = rnd.choice(names)
+            if r < 0.22: out.append(pad + "%s = %d" % (x, rnd.randint(0, 9)))
+            elif r < 0.36: out.append(pad + ("return %s + %s" % (x, y) if kind == "def" and rnd.random() < 0.5 else "print(%s, %s)" % (x, y)))
+            elif r < 0.42 and kind != "module": out.append(pad + "global " + x)
+            elif r < 0.48 and kind == "def" and depth > 1: out.append(pad + "nonlocal " + x)
+            elif r < 0.52: out.append(pad + "del " + x)
+            elif r < 0.58: out.append(pad + "%s = lambda %s=%s: %s + %s" % (x, y, y, x, rnd.choice(names)))
+            elif r < 0.64: out.append(pad + "%s = [%s for %s in range(2) if %s]" % (x, rnd.choice(names), y, rnd.choice(names)))
+            elif r < 0.68: out.append(pad + "for %s in (1, 2): %s += 1" % (x, y))
+            elif r < 0.72 and kind == "def": out.append(pad + "%s = yield %s" % (x, y))
+            elif depth < 4 and r < 0.88:
+                params = ", ".join(rnd.sample(names, rnd.randint(0, 2)))
+                out.append(pad + "def f%d(%s):" % (rnd.randint(0, 9), params)); out += block("def", depth + 1, ind + 1)
+            elif depth < 4:
+                out.append(pad + "class C%d:" % rnd.randint(0, 9)); out += block("class", depth + 1, ind + 1)
+            else: out.append(pad + "pass")
+        return out
+    progs = []
+    for _ in range(n):
+        progs.append("\n".join(block("module", 0, 0)) + "\n")
+    # the systematic core: function > class > method with every subset of the pool bound in the class
+    # body and read in the method
+    import itertools
+    for bound in itertools.chain.from_iterable(itertools.combinations(names, k) for k in range(0, 5)):
+        for read in itertools.chain.from_iterable(itertools.combinations(names, k) for k in range(1, 4)):
+            src = "def outer():\n" + "".join("    %s = 1\n" % x for x in names) + "    class C:\n" + "".join("        %s = 2\n" % x for x in bound)
+            src += "        def m(self):\n            return (%s,)\n    return C\n" % ", ".join(read)
+            progs.append(src)
+    return progs
